@@ -51,8 +51,11 @@ CLAIMED = {
         text="Proof: advance(m) takes exactly m steps for every m >= 0 (loop invariants over the 100-group split and the remainder), "
              "each sampler's take_step adds exactly one entry to every store, run_for takes at least one whole step per pass, "
              "never divides by zero and exits only when the clock passes the budget (arbitrary non-decreasing clock, arbitrary "
-             "step cost). Bounded: real samplers advanced by m in {0,1,7,99,100,101,150} and a scripted slow clock.",
-        note="take_step is modular inside advance/run_for (its +1 contract is proved per sampler); ChainPool equality is bounded only",
+             "step cost); ChainPool.advance hands every chain to the pool once, advances each copy by exactly n and keeps the order. "
+             "Bounded: real samplers advanced by m in {0,1,7,99,100,101,150}, a scripted slow clock, and ChainPool on real worker "
+             "processes against one deep copy of the chain list advanced sequentially.",
+        note="take_step is modular inside advance/run_for (its +1 contract is proved per sampler); that the copies pickled to the pool's "
+             "workers are independent of one another (pooled = sequential) is assumed in the proof layer and decided by the bounded layer",
         ref="3/C15"),
     "C14": dict(
         text="Proof: for every chain length, burn >= 0 and thin >= 1 the parameter / sample / log-probability read-outs of the "
